@@ -5,7 +5,9 @@ package main
 // the parent's crash classifier over the worker's death (panics in script
 // goroutines, fatal errors). Workload: token soup, grammar-wild templates
 // crossing every production with every value kind, corpus mutation, mutated
-// IR programs.
+// IR programs; c01_shapes.go: generated function literals, numerals, types;
+// c01_r4.go: unsigned numbers and multi-byte strings (random and the exhaustive
+// cross phase), storms of script goroutines in fresh child processes.
 
 import (
 	"context"
@@ -62,6 +64,16 @@ vFunc0 = func() { return 1 }
 vFuncV = func(a...) { return a }
 vFunc5 = func(a, b, c, d, e) { return e }
 module vMod { x = 1; func f() { return x } }
+vU64s = make([]uint64, 2)
+vU64s[1] = 7
+vU8s = []byte{1, 200}
+vU32s = []uint32{7}
+vUs = []uint{1}
+vBytes = toByteSlice("ab")
+vS1 = "é"
+vS2 = "日本"
+vS3 = "naïve"
+vS4 = "€5😀"
 `
 
 var c01Operands = []string{"vNil", "vTrue", "vInt", "vNeg", "vBig", "vMax", "vFloat", "vStr", "vEmpty", "vList", "vEList", "vMap",
@@ -182,6 +194,7 @@ func c01NewEnv() *env.Env {
 	e.Define("gFnRet", func() func(int64) int64 { return func(a int64) int64 { return a } })
 	e.Define("gCb", func(f func(a []int64, m map[string]int64) []string) []string { return f([]int64{1}, nil) })
 	e.Define("gCbV", func(f func(a ...int64) int64) int64 { return f(1, 2) })
+	c01DefineR4(e)
 	c01RunPrelude(e, &c01TypePreludeStmt, c01TypePrelude)
 	return e
 }
@@ -275,16 +288,20 @@ func init() {
 			return fw.Plan{
 				Level:            "exploration",
 				CrashIsViolation: true,
-				Rule:             "each case runs 70 scripts through vm.ExecuteContext (debug=false) in an environment holding one value of every constructible kind, types defined with make(type ...) (of numbers, strings, lists, maps, functions, structs, channels, pointers, durations, error), plus Go functions over such values (identity, typed scalars/slices/maps/pointers/channels/functions, variadic, multi-result, error-returning incl. a nil error or nil non-empty interface as the single result, nil map/slice/pointer/function/channel results, panicking with error/string/arbitrary value, callbacks): 15% token soup from the lexer's alphabet, 45% grammar-wild templates (every production with operands chosen ignoring types, degenerate forms; 14% of the operands are generated: function literals of every parameter-list shape incl. variadic without a named parameter and duplicate names, numerals as source literals and as strings with fractions, exponents of every magnitude up to beyond the int32/int64 range and digit strings of up to 400 digits, typed literals/make/new over random type expressions nested three deep - slice/map/chan/pointer/struct/defined/dotted/undefined names, including map keys reflect cannot hash and struct fields that are lower-case or duplicated; dedicated templates put function literals, numerals and types in every position they can be written, compare/convert/index with numerals, use the zero value of the type of any value, and call Go methods through member syntax), 30% mutations of the repository's own scripts, 10% mutated generated programs; case 0 replays every input that crashed the pinned tree plus one representative of each generated class. Monitor: recover() around the call (a Go panic reaching the caller), the parent's classifier over a worker death (panic in a script goroutine, fatal error), and for every returned value a goroutine that keeps it - and up to 7 nil interface values reachable in it - in local variables while its stack is moved, so that a corrupted value ends the worker with the runtime's 'invalid pointer found on stack' while its input is in flight. Non-trivial = the script parsed; distinct = distinct source text.",
+				Rule:             "each case runs 70 scripts through vm.ExecuteContext (debug=false) in an environment holding one value of every constructible kind, types defined with make(type ...) (of numbers, strings, lists, maps, functions, structs, channels, pointers, durations, error), plus Go functions over such values (identity, typed scalars/slices/maps/pointers/channels/functions, variadic, multi-result, error-returning incl. a nil error or nil non-empty interface as the single result, nil map/slice/pointer/function/channel results, panicking with error/string/arbitrary value, callbacks): 15% token soup from the lexer's alphabet, 45% grammar-wild templates (every production with operands chosen ignoring types, degenerate forms; 14% of the operands are generated: function literals of every parameter-list shape incl. variadic without a named parameter and duplicate names, numerals as source literals and as strings with fractions, exponents of every magnitude up to beyond the int32/int64 range and digit strings of up to 400 digits, typed literals/make/new over random type expressions nested three deep - slice/map/chan/pointer/struct/defined/dotted/undefined names, including map keys reflect cannot hash and struct fields that are lower-case or duplicated; dedicated templates put function literals, numerals and types in every position they can be written, compare/convert/index with numerals, use the zero value of the type of any value, and call Go methods through member syntax), 30% mutations of the repository's own scripts, 10% mutated generated programs; case 0 replays every input that crashed the pinned tree plus one representative of each generated class. The environment also holds unsigned numbers of every width (elements of []uint64/[]uint32/[]uint/[]byte built by the script, bytes of toByteSlice, make(uint..); host-bound uint/uint8/uint16/uint32/uint64/uintptr/int8/int16/float32 numbers, []byte, []uint16), strings with multi-byte characters and a host-bound string that is not valid UTF-8; templates put them under every operator, in every position a number / a string is used, with indices at and next to the byte-length and character-count boundaries; compound assignments to entries of nil typed maps reached through containers; function literals with up to hundreds of parameters. Phase goroutines: the in-process scripts, plus per case one storm in a FRESH child process (every construct shape is new to it): 4..16 goroutines started by go wait on one channel, are released together by close() and each evaluate 40..100 constructs of distinct shapes (function literals/declarations with 0..90 parameters, variadic or not, called or not, nested in modules and lists; struct/map/chan/slice/defined types), or - one storm in four - bind a module to names while the other half assign plain variables of the scopes above it; the workers share nothing but the two channels. Phase cross (exhaustive): every unsigned operand x every binary operator x every partner (all unsigned ones, every other number kind, one value of each other kind) in both orders; the ordering operators in every position an expression is evaluated from (top level, go/defer arguments, conditions, function bodies, literals); unary/increment/compound-assignment/conversion/index/size uses of every unsigned operand; and for each of 12 strings (9 with multi-byte characters, an ASCII one and the empty one for comparison, 1 host-bound that is not valid UTF-8) every index from -1 to len(s)+1 (as a literal and computed from the script's own len) in every read, slice (all neighbouring bounds), store, increment and loop form. Monitor: recover() around the call (a Go panic reaching the caller), the parent's classifier over a worker death (panic in a script goroutine, fatal error), and for every returned value a goroutine that keeps it - and up to 7 nil interface values reachable in it - in local variables while its stack is moved, so that a corrupted value ends the worker with the runtime's 'invalid pointer found on stack' while its input is in flight. Non-trivial = the script parsed; distinct = distinct source text.",
 				Assumptions: []string{"stack/memory exhaustion and concurrent map access between script goroutines are classified from the runtime's fatal-error text and excluded, as the statement says",
 					"allocation sizes between 10^4 and 2^48 and range() over huge spans are never generated (they would exhaust memory, which is outside the guarantee)",
 					"the packages tables are not linked into this worker: import() cannot reach os.Exit/exec/sockets",
 					"numerals that the VM would take as a size or repeat count (integer numerals also inside strings, float literals) are generated below 10^4 or beyond the int64 range only; in scripts that mention range() exponents and long digit runs are stripped",
 					"environment class: Go arrays, Go functions with array parameters and Go structs with embedded pointers are not bound - a script cannot construct such values (no array type or embedded field can be written), so they are outside the stated class of environments",
 					"pending repairs of the pinned tree (c01PendingFix_* constants, /tmp/strengthen/C01-genuine.md): nil module pointers (zero value of a type defined from a module), and nil values of a non-empty interface type sent into channels / stored into maps (such values are confined to templates that do neither) are kept out of the generated domain until /repo is repaired",
+					"storm children: a child that dies with 'fatal error: concurrent map ...' is a violation whatever frames it died in, because the storm's goroutines share no script container by construction (every name they assign is a parameter or a var of their own; the scope storm shares only plain variables and a module); stack/memory exhaustion of a child is excluded; a child that is killed by the 120 s watchdog or dies without a Go fault report is inconclusive. Whether two goroutines really overlap is up to the scheduler: a silent storm proves nothing about that schedule, a dead child is a counterexample",
+					"host-bound unsigned values that could become a size or a repeat count are below 10^4 or beyond the int64 range",
+					"pending repairs of the pinned tree (c01PendingFix_* constants in c01_r4.go, /tmp/strengthen/C01-r4-genuine.md): NaN keys in compound assignments to entries of nil typed maps, and function literals with more than 100 parameters (126 is where reflect.FuncOf panics; mutations may add a few) are kept out of the generated domain until /repo is repaired",
 					"the moved-stack observation needs the runtime to start the observing goroutine with a stack smaller than 192KB (the default); otherwise it learns nothing and stays silent"},
 				Phases: []fw.Phase{{Name: "fuzz", Cases: n, Chunk: 25, TimeoutS: 600, MemMB: 6144},
-					{Name: "goroutines", Cases: n / 10, Chunk: 5, TimeoutS: 600, MemMB: 6144}},
+					{Name: "goroutines", Cases: n / 10, Chunk: 5, TimeoutS: 600, MemMB: 6144},
+					{Name: "cross", Cases: c01CrossSlices, Chunk: 2, TimeoutS: 600, MemMB: 6144, Exhaust: true}},
 			}
 		},
 		Init: func(w *wk.Worker) {
@@ -299,7 +316,16 @@ func init() {
 			}
 		},
 		Run: func(c *wk.Case) {
+			if c.Phase == "cross" {
+				c01RunCross(c)
+				return
+			}
 			if c.Phase == "goroutines" {
+				// fresh processes in which script goroutines, released together, evaluate
+				// constructs of many shapes for the first time (see c01_r4.go)
+				for rep := 0; rep < c01StormsPerCase; rep++ {
+					c01RunStorm(c)
+				}
 				// script goroutines that share nothing but plain variables and modules
 				// (never a script container): only the interpreter's own state is contended
 				for rep := 0; rep < 6; rep++ {
